@@ -592,7 +592,8 @@ impl CompactThetaSketch {
         num_entries: usize,
         theta: u64,
     ) -> Result<Vec<u64>, Error> {
-        let mut entries = Vec::with_capacity(num_entries);
+        // never reserve more than the remaining input can supply
+        let mut entries = Vec::with_capacity(num_entries.min(cursor.remaining() / 8));
         for _ in 0..num_entries {
             let hash = cursor.read_u64_le().map_err(insufficient_data("entries"))?;
             if hash == 0 || hash >= theta {
